@@ -46,6 +46,20 @@ def run_one(pid: str, tier: str, model: Model = None) -> int:
             checker_cmd=f"{VERIF}/check {pid} --tier {tier}",
             seed=int(os.environ.get("VERIF_SEED", "0") or 0))
     except AnalysisError as e:
+        # a definite violation established before the analysis had to stop
+        # is still a violation: report it (exit 1); otherwise fail closed
+        from skv.report import load_known
+        open_keys = {k["key"] for k in load_known().get("open", [])
+                     if k.get("property") == pid}
+        if any(f.key() not in open_keys for f in rep.findings):
+            rep.note(f"analysis incomplete, stopped at: {e}")
+            rep.extra["exhaustive"] = False
+            print(f"ANALYSIS-ERROR property={pid}: {e} (after violations "
+                  f"had been established; reporting those)")
+            return finish(
+                rep, "other", mod.EXPLANATION, mod.TRUSTED, mod.ASSUMPTIONS,
+                checker_cmd=f"{VERIF}/check {pid} --tier {tier}",
+                seed=int(os.environ.get("VERIF_SEED", "0") or 0))
         print(f"ANALYSIS-ERROR property={pid}: {e}")
         return 2
     except Exception:
